@@ -983,8 +983,9 @@ def run(ctx, scale):
               "is what produced the factor; distinct by full canonical input")
   ctx.partial = ["IEEE rounding: accepted iff exact max|L L' - Sigma| <= 1e-9*|Sigma| (DESIGN C17)",
                  "distribution of the draws (normality, sample moments) is a labelled statistical test, not a theorem",
-                 "U diag(E) U' = Sigma for a PSD Sigma (consequence of the SVD contract + PSD) is a hypothesis of fallback_factor, "
-                 "evaluated exactly on every fallback run"]
+                 "U diag(E) U' = Sigma is no longer a hypothesis: it is proved from the real SVD contract U diag(E) V' = Sigma, orthogonal U and V, "
+                 "and Sigma symmetric PSD (svd_is_eigendecomposition, fallback_factor_of_svd, sampleFactor_reproduces_of_svd); the harness still "
+                 "evaluates it exactly on every fallback run as a cross-check of scipy's contract"]
   ctx.extra["source_overwrite_a"] = source_overwrite_flag()
   if scale == 1:
     for c in CORPUS:
